@@ -75,17 +75,17 @@ CHECKS = {
             "effect analysis (who writes the paths the getter reads) + VALIDATE-FIRST", "5 C15", TB + "F5a-c are recorded known findings; mixed arithmetic is inconclusive, not a violation."),
     "C16": ("Handshake sequence by completion-dominance (read, json, parser with the session's buffer and the client's width, add_subparsers, add_class_commands(run-time class), "
             "name + newline, drain); command surface (getmembers, '_' filter with public_only default True, function/property dispatch, dash names, member stored under CMD, help enabled); "
-            "EXECUTABLE (a required argument is filed under the parameter name the session looks up); PARSER-CONFIG; TOTAL-INDEXING on the command-building path; TABLE(annotation kinds at run time vs what the converter does with them) over every public member of every pool class: finding F6; an annotation is looked at by identity only (never hashed or compared by value).",
+            "EXECUTABLE (a required argument is filed under the parameter name the session looks up); PARSER-CONFIG; TOTAL-INDEXING on the command-building path; TABLE(annotation kinds at run time vs what the converter does with them) over every public member of every pool class: finding F6; an annotation is looked at by identity only (never hashed or compared by value); OMIT-SELF; default help / description texts.",
             "dominance on the CFG + producer/consumer table agreement (annotation kind vs converter domain)", "5 C16",
             TB + "Declined: the bytes on the wire; help text for every width (argparse run-time behaviour). F6 is a recorded known finding."),
     "C17": ("Dispatch structure of _exec_method_and_respond (self, positional kinds in signature order, *args after, rest by keyword, through return_or_exception), RESULT-USED at all "
             "three return_or_exception call sites with the reply forms ok-if-None-else-str / str, add_function_arg mapping incl. the bool-defaults-to-False table over the pool classes, "
-            "return_or_exception semantics (called once, awaited under the coroutine guard, Exception returned, nothing but cancellation escapes - call and await); TOKENS (what reaches parse_args is the line split at blanks, words unchanged); OK-CONSTANT (the reply for a None result is the decoded module constant whose value is the text 'ok'); OMIT-SELF (the omitted-parameter default names the receiver and nothing else); CONVERSION-SITES (a type converter is installed only by add_function_arg from the parameter's own annotation; no argparse action is re-configured); PARSER-CONFIG (argparse reading options stay at their defaults); UNCONVERTED-ONLY-SENTINEL (only the SUPPRESS object itself bypasses conversion); buffer isolation; WIRE-CODEC (UTF-8, strict, on both sides of the wire); annotation table shared (F6).",
+            "return_or_exception semantics (called once, awaited under the coroutine guard, Exception returned, nothing but cancellation escapes - call and await); TOKENS (what reaches parse_args is the line split at blanks, words unchanged); OK-CONSTANT (the reply for a None result is the decoded module constant whose value is the text 'ok'); OMIT-SELF (the omitted-parameter default names the receiver and nothing else); CONVERSION-SITES (a type converter is installed only by add_function_arg from the parameter's own annotation; no argparse action is re-configured); PARSER-CONFIG (argparse reading options stay at their defaults); UNCONVERTED-ONLY-SENTINEL (only the SUPPRESS object itself bypasses conversion); buffer isolation; WIRE-CODEC (UTF-8, strict, on both sides of the wire); DISPATCH-NAMES (forwarding **kwargs cannot clash with a parameter of the receiving function); DISPATCH-KIND (functions to the method executor, properties to the property executor); annotation table shared (F6).",
             "syntax-directed structure rules + RESULT-USED data-flow + path counting", "5 C17",
             TB + "Declined: equality of effects for every argument value (translation over run-time values). F6 shared (known finding)."),
     "C18": ("HATCHES (all four argparse escape hatches overridden, no print/sys.std*/exit in parser, session, server; positive control in client), per-iteration protocol of listen by "
             "typestate (one read, one command, one reply, drained), containment as three structural sub-rules (handlers around parse_args cover ArgumentError/HelpRequested/ParserError and "
-            "fall through; type wrapper lets only ArgumentTypeError/TypeError/ValueError out; pool members invoked only through return_or_exception after a successful parse), buffer isolation, PARSER-CONFIG, UNCONVERTED-ONLY-SENTINEL, SESSION-IS-LOCAL (per-connection objects live in the connection callback's locals); no lock shared between sessions is held across an await.",
+            "fall through; type wrapper lets only ArgumentTypeError/TypeError/ValueError out; pool members invoked only through return_or_exception after a successful parse), buffer isolation, PARSER-CONFIG, UNCONVERTED-ONLY-SENTINEL, SESSION-IS-LOCAL (per-connection objects live in the connection callback's locals); no lock shared between sessions is held across an await; DISPATCH-NAMES.",
             "hatch/who-may rules + iteration typestate + exceptional-exit inventory", "5 C18",
             TB + "Declined: one reply 'when the wait is over'; output of concurrent sessions (follows from per-instance state)."),
     "C19": ("serve_forever awaits only the start-up and returns the serving task; _serve_forever runs _final_callback exactly once on every way out once serving began and absorbs "
